@@ -79,6 +79,20 @@ def gen_inputs(tier, rnd):
                 yield {"spec": {"format": "delimited", "header": 0, "fields": text_fields[:ncols], "checks": [{"kind": "unique", "cols": list(cols)}]},
                        "table": table, "mode": "yield"}
 
+    # rows whose cells are all empty are rows like any other (fields that may be empty): they have a key, they count
+    for ncols in (2, 3):          # (a row of one empty cell is an empty line in delimited data: no items at all)
+        blank = [""] * ncols
+        some = ["a"] + [""] * (ncols - 1)
+        for table in ([blank, blank], [some, blank, some, blank], [blank, some, blank], [blank], [some, blank]):
+            for n in (0, 1, 2):
+                for op in ("<", "==", ">="):
+                    yield {"spec": {"format": "delimited", "header": 0, "fields": text_fields[:ncols],
+                                    "checks": [{"kind": "unique", "cols": list(range(ncols))}, {"kind": "distinct", "col": 0, "op": op, "n": n}]},
+                           "table": [list(r) for r in table], "mode": "yield"}
+                    yield {"spec": {"format": "delimited", "header": 0, "fields": text_fields[:ncols],
+                                    "checks": [{"kind": "distinct", "col": ncols - 1, "op": op, "n": n}]},
+                           "table": [list(r) for r in table], "mode": "continue"}
+
 
 def direct_oracle(inp, obs):
     """independent recomputation of the property's right-hand side for on_error='yield'"""
